@@ -265,8 +265,7 @@ def check_role_of_creation(eng, ctx):
     for p in eng.I.run(fi):
         for e in cm.calls_to(p, '_get_or_create_stream'):
             if len(e.args) >= 2 and \
-                    cm.show0(e.args[1]) in (
-                        'enum:AllowedStreamIDs(not self.config.client_side)',):
+                    cm.parity_class(p, e.args[1]) == 'peer':
                 ok = True
     ctx.ob('FLOW.parity', fi.qual, 'inbound streams use the peer parity', ok,
            '_get_or_create_stream(frame.stream_id, AllowedStreamIDs(not '
